@@ -15,6 +15,9 @@ GARBAGE_VALUES = ['', ' ', ',', ';', '=', ';;', '==', '\x00', '\xff', '\xff\xff'
 BOUNDARY_NUMBERS = ['32767', '32768', '65535', '65536', '2147483646', '2147483647', '2147483648', '2147483649', '2147483650', '4294967295', '4294967296', '4294967297',
                     '9223372036854775807', '9223372036854775808', '9223372036854775809', '18446744073709551615', '18446744073709551616', '18446744073709551619',
                     '02147483648', '21474836470', '-2147483648', '-2147483649']
+# values made of optional whitespace only, or ending in it (the header line is 'Name:' SP value: a value of HT / SP only sits right
+# behind the skipped leading space; trimming and length arithmetic around it is a classic place for an unsigned wrap)
+GARBAGE_VALUES += ['\t', ' \t', '\t ', '\t\t', ' \t ', '  \t', '\t \t', 'x\t', 'x \t', 'x\t ', 'a=b\t', 'a=b \t', '1\t', ' \t1']
 GARBAGE_VALUES += [pre + n for pre in ('', 'max-age=', 'a=b; Max-Age=', 'h:', 'text/html;q=', 'text/html;q=0.') for n in BOUNDARY_NUMBERS]
 HDRS = ['Accept', 'Cache-Control', 'Connection', 'Content-Encoding', 'Transfer-Encoding', 'Content-Length', 'Content-Type', 'Authorization', 'Date', 'Expect', 'Host',
         'Location', 'Server', 'User-Agent', 'Cookie', 'Set-Cookie', 'Allow', 'Access-Control-Allow-Origin', 'X-Unknown']
